@@ -1,6 +1,7 @@
 # Copyright 2024-2025 IBM Corporation
 
 import re
+import zlib
 import copy
 from math import isclose
 import pathlib
@@ -73,11 +74,12 @@ class RCUTableFingerprint():
     def _data_conversion(self, data: str):
         # enough variety to build a rough 'alphabet' of kernel names
         # no big deal if some collisions occur
-        return hash(data) % 65535
+        # (a digest that does not depend on the interpreter's hash seed: the value becomes part of the fingerprint)
+        return zlib.crc32(data.encode()) % 65535
 
     def _update_hash(self) -> None:
         # hash based on data and totaltime (distinguish same sequence for different input sizes)
-        self.hash = hash(self.fprint_data + str(self.totaltime))
+        self.hash = zlib.crc32((self.fprint_data + str(self.totaltime)).encode())
 
     def reset(self) -> None:
         self.fprint_data: str = ""
